@@ -222,6 +222,11 @@ func (o *LogDirReader) loopWithError(ctx context.Context) error {
 
 			if done.filePath == mainLogPath {
 				mainLog.setOffset(done.numBytesRead)
+
+				// Remember how much of the file has been read so
+				// that the first write event can tell if the file
+				// shrank (was truncated) since the initial read.
+				mainLog.lastSz = done.numBytesRead
 			}
 
 			if initFileIndex > len(o.initFileNames)-1 {
